@@ -328,6 +328,23 @@ class _Analysis:
     def where(self, node):
         return f"{self.file}:{getattr(node, 'lineno', '?')}"
 
+    def _exact_key_params(self) -> bool:
+        """every parameter is annotated with an immutable type whose equality is exact (int, str, bool, bytes, tuples / frozensets / Optional of those):
+        memoising such a function is transparent - equal keys mean identical arguments"""
+        a = self.fn.args
+        params = a.posonlyargs + a.args + a.kwonlyargs
+        if a.vararg or a.kwarg or not params:
+            return False
+        ok = {"int", "str", "bool", "bytes", "Tuple", "tuple", "FrozenSet", "frozenset", "Optional", "None", "Ellipsis"}
+        for x in params:
+            if x.annotation is None:
+                return False
+            names = {n.id for n in ast.walk(x.annotation) if isinstance(n, ast.Name)} | {n.attr for n in ast.walk(x.annotation) if isinstance(n, ast.Attribute)}
+            consts = {str(n.value) for n in ast.walk(x.annotation) if isinstance(n, ast.Constant) and isinstance(n.value, str)}
+            if consts or not names or not names <= ok:
+                return False
+        return True
+
     def run(self) -> Summary:
         a = self.fn.args
         names = [x.arg for x in a.posonlyargs + a.args + a.kwonlyargs]
@@ -339,7 +356,7 @@ class _Analysis:
         is_static = any(ast.unparse(d) == "staticmethod" for d in self.fn.decorator_list)
         for d in self.fn.decorator_list:
             if "lru_cache" in ast.unparse(d) or ast.unparse(d).split("(")[0].split(".")[-1] in ("cache", "cached_property"):
-                self.s.caches.append(ast.unparse(d))
+                self.s.caches.append(ast.unparse(d) + (" [exact-keys]" if self._exact_key_params() else ""))
         for i, n in enumerate(names):
             v = P(n)
             if i == 0 and self.cls and not is_static and n in ("self", "cls"):
@@ -924,7 +941,9 @@ def frames_outcome(mods: List[str]):
                 # decorator (invisible in the callers' write sets) is judged here
                 allowed = {"writes": list(prof["writes"]), "memo": []}
             extra_w = [w for w in prof["writes"] if w not in allowed["writes"]]
-            extra_m = [m_ for m_ in prof["memo"] if m_ not in allowed["memo"]]
+            # a new memoisation is accepted when every parameter is an exactly-comparable immutable (int / str / bool / tuples of those): equal keys are
+            # identical arguments, so the result still depends on the arguments only
+            extra_m = [m_ for m_ in prof["memo"] if m_ not in allowed["memo"] and m_.split(" [")[0] not in [x.split(" [")[0] for x in allowed["memo"]] and not m_.endswith("[exact-keys]")]
             if extra_w:
                 s_ = repo().summary(f"{mod}:{q}") if q != "<module>" else None
                 wh = ""
